@@ -37,6 +37,9 @@ def _sig(f):
     return (f.get("impl_adt"), b["arg_count"], tuple(l["ty"] for l in b["locals"][: b["arg_count"] + 1]))
 
 
+KEEP_INLINED = set()
+
+
 def new_helpers(js):
     """keys of functions to inline: private, non-closure, crate raft, absent from the reference table, not a rename"""
     ref = _ref_table()
@@ -53,8 +56,12 @@ def new_helpers(js):
     out = []
     for k in new:
         f = fns[k]
-        if f.get("vis") == "Public" or f.get("impl_trait"):
+        if f.get("impl_trait"):
             continue
+        if f.get("vis") == "Public":
+            # a new public function is new API, but inside the crate it is used like any other extracted helper: it is
+            # spliced into its in-crate callers too, and stays a function of its own
+            KEEP_INLINED.add(k)
         sig = _sig(f)
         # (plain renames were mapped back to their reference names before this point: fn_renames)
         # a vanished function of the same module with the same name: a method turned into a free function (or back)
@@ -173,6 +180,7 @@ def propagate_moves(f, rounds=4):
             if t["k"] == "drop" and isinstance(t.get("place"), dict):
                 pass
         ren = {}
+        targets = set()
         for L, (bi, si, rv) in single.items():
             if ndefs.get(L) != 1 or L <= argc or "use" not in rv:
                 continue
@@ -185,13 +193,15 @@ def propagate_moves(f, rounds=4):
             P = src["l"]
             if P == L or P == 0 or ndefs.get(P, 0) > 1 or (P > argc and ndefs.get(P, 0) != 1):
                 continue
-            if body["locals"][L]["ty"] != body["locals"][P]["ty"]:
-                continue
+            tl, tp = body["locals"][L]["ty"], body["locals"][P]["ty"]
+            if tl != tp and not (tl.startswith("impl ") or tp.startswith("impl ") or len(tl) <= 2 or len(tp) <= 2):
+                continue   # (a generic parameter `impl Fn..` / `T` of a spliced-in helper takes the argument's type)
             if cp is not None and (L in partial or L in mutb):
                 continue
-            if P in ren or L in ren.values():
+            if P in ren or L in targets:
                 continue
             ren[L] = (P, bi, si)
+            targets.add(P)
         if not ren:
             break
         # drop the assignments, then rename
@@ -256,6 +266,127 @@ def desugar_mem_replace(f):
         b["term"] = {"k": "goto", "target": t["target"], "s": t["s"]}
         n += 1
     return n
+
+
+SPLICED_CLOSURES = set()
+
+COMBINATORS = {
+    # callee suffix -> (adt, payload variant, other variant, kind)
+    "core::option::Option::is_some_and": ("core::option::Option", "Some", "None", "pred"),
+    "core::result::Result::is_ok_and": ("core::result::Result", "Ok", "Err", "pred"),
+    "core::option::Option::and_then": ("core::option::Option", "Some", "None", "and_then"),
+    "core::option::Option::map": ("core::option::Option", "Some", "None", "map"),
+}
+
+
+def desugar_combinators(f, fns, rounds=3):
+    """`o.is_some_and(|v| p(v))`, `o.map(|v| g(v))`, `o.and_then(|v| g(v))`, `r.is_ok_and(..)` with a closure literal
+    built in the same function are read as the `match` they abbreviate, the closure's body spliced into the arm:
+
+        match o { Some(v) => <body>(v), None => false | None }
+
+    so that a call made inside such a closure (`own_progress_mut().is_some_and(|pr| pr.maybe_update(index))`) is seen
+    where it runs, with the caller's guards and with the captured variables resolved. Returns the number of calls
+    rewritten."""
+    body = f["body"]
+    B = body["blocks"]
+    done = 0
+    for _ in range(rounds):
+        cdef = {}
+        ndefs = {}
+        for b in B:
+            for st in b["stmts"]:
+                if st["k"] == "assign" and not st["place"]["p"]:
+                    ndefs[st["place"]["l"]] = ndefs.get(st["place"]["l"], 0) + 1
+                    if st["rv"].get("agg") == "closure":
+                        cdef[st["place"]["l"]] = st["rv"]["closure"]
+        todo = None
+        for bi, b in enumerate(B):
+            t = b["term"]
+            if t["k"] != "call" or t.get("target") is None or not isinstance(t.get("func"), dict):
+                continue
+            fn = t["func"].get("const", {}).get("fn") if "const" in t["func"] else None
+            if not fn:
+                continue
+            sp_ = _short(fn.get("path", ""))
+            if sp_ in ("core::ops::function::FnOnce::call_once", "core::ops::function::Fn::call", "core::ops::function::FnMut::call_mut") and len(t["args"]) == 2:
+                # a closure literal of this very function called directly (a predicate handed to a spliced-in helper):
+                # `confirmed(acks)` with `confirmed = |acks| prs.has_quorum(acks)` is read as the closure's body
+                c = t["args"][0].get("move") or t["args"][0].get("copy")
+                tup = t["args"][1].get("move") or t["args"][1].get("copy")
+                if c is not None and tup is not None and not c["p"] and not tup["p"] and ndefs.get(c["l"]) == 1 and c["l"] in cdef and cdef[c["l"]] in fns and ndefs.get(tup["l"]) == 1:
+                    clo = fns[cdef[c["l"]]]
+                    tdef = None
+                    for bb in B:
+                        for st in bb["stmts"]:
+                            if st["k"] == "assign" and st["place"] == {"l": tup["l"], "p": []} and st["rv"].get("agg") == "tuple":
+                                tdef = st["rv"]["ops"]
+                    if tdef is not None and clo["body"]["arg_count"] == 1 + len(tdef) and not clo["body"]["locals"][1]["ty"].startswith("&"):
+                        b["term"] = {"k": "call", "func": {"const": {"ty": "closure", "fn": {"path": cdef[c["l"]], "local": True, "orig": cdef[c["l"]]}}},
+                                     "args": [{"move": {"l": c["l"], "p": []}}] + copy.deepcopy(tdef), "dest": t["dest"], "target": t["target"], "unwind": t.get("unwind"), "s": t["s"]}
+                        _splice(f, bi, clo)
+                        SPLICED_CLOSURES.add(cdef[c["l"]])
+                        done += 1
+                        todo = "again"
+                        break
+                continue
+            spec = COMBINATORS.get(sp_)
+            if spec is None or len(t["args"]) != 2:
+                continue
+            x = t["args"][0].get("move") or t["args"][0].get("copy")
+            c = t["args"][1].get("move") or t["args"][1].get("copy")
+            if x is None or c is None or x["p"] or c["p"] or ndefs.get(c["l"]) != 1 or c["l"] not in cdef or cdef[c["l"]] not in fns:
+                continue
+            clo = fns[cdef[c["l"]]]
+            if clo["body"]["arg_count"] != 2 or clo["body"]["locals"][1]["ty"].startswith("&"):
+                continue   # only closures called by value (FnOnce bodies taking the closure itself)
+            todo = (bi, t, spec, x, c, clo)
+            break
+        if todo == "again":
+            continue
+        if todo is None:
+            break
+        bi, t, (adt, pv, ov, kind), x, c, clo = todo
+        L = body["locals"]
+        s_ = t["s"]
+        d_loc = len(L)
+        L.append({"ty": "isize", "adt": None})
+        v_loc = len(L)
+        L.append(copy.deepcopy(clo["body"]["locals"][2]))
+        dest, target = t["dest"], t["target"]
+        pdisc, odisc = ENUM_DISCR[(adt, pv)], ENUM_DISCR[(adt, ov)]
+        nb = len(B)
+        b_other, b_some, b_unreach = nb, nb + 1, nb + 2
+        # other arm
+        if kind == "pred":
+            other_rv = {"use": {"const": {"ty": "bool", "val": {"int": 0}}}}
+        else:
+            other_rv = {"agg": "adt", "adt": adt, "variant": ov, "fields": [], "ops": []}
+        B.append({"cleanup": False, "stmts": [{"k": "assign", "place": copy.deepcopy(dest), "rv": other_rv, "s": s_}], "term": {"k": "goto", "target": target, "s": s_}})
+        # payload arm: call the closure (spliced below)
+        proj = [{"downcast": pv, "vi": pdisc}, {"f": 0, "n": "0", "adt": adt, "v": pv}]
+        some_stmts = [{"k": "assign", "place": {"l": v_loc, "p": []}, "rv": {"use": {"move": {"l": x["l"], "p": proj}}}, "s": s_}]
+        if kind == "map":
+            r_loc = len(L)
+            L.append(copy.deepcopy(clo["body"]["locals"][0]))
+            b_wrap = nb + 3
+            call_dest, call_target = {"l": r_loc, "p": []}, b_wrap
+        else:
+            call_dest, call_target = copy.deepcopy(dest), target
+        cterm = {"k": "call", "func": {"const": {"ty": "closure", "fn": {"path": cdef[c["l"]], "local": True, "orig": cdef[c["l"]]}}},
+                 "args": [{"move": {"l": c["l"], "p": []}}, {"move": {"l": v_loc, "p": []}}], "dest": call_dest, "target": call_target, "unwind": t.get("unwind"), "s": s_}
+        B.append({"cleanup": False, "stmts": some_stmts, "term": cterm})
+        B.append({"cleanup": False, "stmts": [], "term": {"k": "unreachable", "s": s_}})
+        if kind == "map":
+            B.append({"cleanup": False, "stmts": [{"k": "assign", "place": copy.deepcopy(dest), "rv": {"agg": "adt", "adt": adt, "variant": pv, "fields": ["0"], "ops": [{"move": {"l": r_loc, "p": []}}]}, "s": s_}],
+                      "term": {"k": "goto", "target": target, "s": s_}})
+        # the dispatching block
+        B[bi]["stmts"].append({"k": "assign", "place": {"l": d_loc, "p": []}, "rv": {"discr": {"l": x["l"], "p": []}, "adt": adt}, "s": s_})
+        B[bi]["term"] = {"k": "switch", "op": {"move": {"l": d_loc, "p": []}}, "ty": "isize", "targets": [[odisc, b_other], [pdisc, b_some]], "otherwise": b_unreach, "s": s_}
+        _splice(f, b_some, clo)
+        SPLICED_CLOSURES.add(cdef[c["l"]])
+        done += 1
+    return done
 
 
 ENUM_DISCR = {("core::option::Option", "None"): 0, ("core::option::Option", "Some"): 1,
@@ -710,7 +841,7 @@ def inline_new_helpers(js):
     for k, f in fns.items():
         walk(f["body"]["blocks"])
     for h in done:
-        if h in as_value:
+        if h in as_value or h in KEEP_INLINED:
             continue
         # closures defined inside the helper keep their own bodies; the helper itself is no longer a unit of analysis
         owner[h]["fns"].pop(h, None)
